@@ -2,7 +2,10 @@ use crate::{
     emulator::Emulator,
     error::{SnapshotLoadError, SnapshotSaveError},
     host::{DataRecorder, Host, LoadableAsset, SeekFrom, SeekableAsset},
-    zx::{joy::kempston, mouse::kempston::KempstonMouse, video::colors::ZXColor},
+    zx::{
+        joy::kempston, machine::ZXMachine, mouse::kempston::KempstonMouse,
+        video::colors::ZXColor,
+    },
     Result,
 };
 
@@ -339,6 +342,11 @@ where
 
     let machine_id = header[6] as u32;
     if machine_id > ZXST_MID_128K {
+        return Err(SnapshotLoadError::MachineNotSupported.into());
+    }
+    // RAM pages of the snapshot can be placed properly only on the matching machine
+    let machine_is_128k = emulator.settings.machine == ZXMachine::Sinclair128K;
+    if (machine_id == ZXST_MID_128K) != machine_is_128k {
         return Err(SnapshotLoadError::MachineNotSupported.into());
     }
 
